@@ -70,7 +70,7 @@ fn case(srv: &mut Srv, seed: u64, res: &mut CaseResult) -> R<()> {
         let ctx = ctxs[ci];
         let name = names[ni];
         let is_active = *active.get(&(ci, ni)).unwrap_or(&false);
-        let kind = if !is_active { *rng.pick(&["register", "register", "register-bad", "trigger", "unregister"]) } else { *rng.pick(&["trigger", "trigger", "register", "unregister", "fail", "trigger-burst"]) };
+        let kind = if !is_active { *rng.pick(&["register", "register", "register-bad", "trigger", "unregister"]) } else { *rng.pick(&["trigger", "trigger", "register", "unregister", "unregister-targeted", "fail", "trigger-burst"]) };
         events.push(format!("{}:{}@{}", kind, name, if ci == 0 { "zero" } else { "A" }));
         match kind {
             "register" => {
@@ -89,6 +89,14 @@ fn case(srv: &mut Srv, seed: u64, res: &mut CaseResult) -> R<()> {
             "register-bad" => {
                 let bad = *rng.pick(BAD_SCRIPTS);
                 srv.must_append(&format!("{}.register", name), ctx, Some(bad.as_bytes()), None, None)?;
+                active.insert((ci, ni), false);
+            }
+            "unregister-targeted" => {
+                // an unregister that names the running instance in its meta (as a supervisor would)
+                srv.pull()?;
+                let tn = format!("{}.registered", name);
+                let current = srv.era_log().iter().rev().find(|f| f.topic == tn && f.context_id == ctx).and_then(|f| meta_str(f, "handler_id").map(|s| s.to_string()));
+                srv.must_append(&format!("{}.unregister", name), ctx, None, Some(json!({"handler_id": current, "reason": "targeted"})), None)?;
                 active.insert((ci, ni), false);
             }
             "unregister" => {
